@@ -114,6 +114,7 @@ type fault struct {
 	d        defect
 	failAt   int
 	cancelAt int // 0 = none, -1 = before the request, k = at the k-th write
+	updater  bool // a concurrent thread creates a label set in every metric during the attempt
 }
 
 func (f fault) String() string {
@@ -126,6 +127,9 @@ func (f fault) String() string {
 	}
 	if f.cancelAt != 0 {
 		s += fmt.Sprintf(" cancel-at=%d", f.cancelAt)
+	}
+	if f.updater {
+		s += " with-concurrent-update"
 	}
 	return s
 }
@@ -182,7 +186,22 @@ func scenario(f fault) (func(), func() string) {
 			problems = append(problems, err.Error())
 			return
 		}
+		if f.updater {
+			// a VM-style updater runs concurrently with the (fault-free) export attempt
+			vrt.Go(func() {
+				for _, m := range ms {
+					lbl := make([]string, len(m.Keys))
+					for k := range lbl {
+						lbl[k] = "upd"
+					}
+					_, _ = m.GetDatum(lbl...)
+				}
+			})
+		}
 		attempt(e, f)
+		if f.updater {
+			vrt.Join()
+		}
 		// (1) every lock is free
 		for i, m := range ms {
 			if !m.TryLock() {
@@ -259,6 +278,8 @@ func main() {
 			faults = append(faults, fault{entry: en, d: defect{metric: -1}, cancelAt: k})
 		}
 		faults = append(faults, fault{entry: en, d: defect{metric: -1}, cancelAt: -1})
+		faults = append(faults, fault{entry: en, d: defect{metric: -1}, updater: true})
+		faults = append(faults, fault{entry: en, d: defect{metric: -1}, updater: true, failAt: 2})
 		if c.Thorough() {
 			// pairs: a defect together with a write failure
 			for _, d := range defects[1:] {
@@ -272,7 +293,7 @@ func main() {
 		f := f
 		body, probs := scenario(f)
 		gsx.Explore(c, gsx.Config{
-			Scenario: f.String(), Bound: c.Pick(1, 2), MaxSteps: 200000, ByScenario: true,
+			Scenario: f.String(), Bound: bound(c, f), MaxSteps: 200000, ByScenario: true,
 			Deadline:      c.Deadline(8*time.Minute, 40*time.Minute),
 			Body:          body,
 			AllowDeadlock: false,
@@ -295,7 +316,14 @@ func main() {
 	c.Set("faults", len(faults))
 	c.Set("writes_in_fault_free_run", nw)
 	c.Assume = []string{"Exporter.Write/Gather and PushMetrics are not driven (their goroutines / sockets are outside the controlled scheduler); Collect and writeSocketMetrics, which they call, are", "the HTTP handlers are called directly with a scripted ResponseWriter and request context"}
-	gsx.Finish(c, "fault enumeration on a store of 4 metrics × 3 label sets: for each of 7 exporter entry points (Collect, HandleVarz, HandleGraphite, HandleJSON, writeSocketMetrics×{graphite,statsd,collectd}): every unrepresentable position (metric × {invalid name, key prog, invalid key, empty key} and metric × label set × non-UTF-8 value), a write failure at every k-th write of the fault-free run, cancellation before the request and at every k-th write (thorough: defect × write-failure pairs); each under all schedules with <=1 (thorough 2) deviations; after the attempt: TryLock on every metric and both store locks, no controlled thread left blocked, a VM-style GetDatum on every metric, then a fault-free export of every format. distinct_nontrivial = schedules with >=1 deviation")
+	gsx.Finish(c, "fault enumeration on a store of 4 metrics × 3 label sets: for each of 7 exporter entry points (Collect, HandleVarz, HandleGraphite, HandleJSON, writeSocketMetrics×{graphite,statsd,collectd}): every unrepresentable position (metric × {invalid name, key prog, invalid key, empty key} and metric × label set × non-UTF-8 value), a write failure at every k-th write of the fault-free run, cancellation before the request and at every k-th write (thorough: defect × write-failure pairs), and a fault-free and a failing attempt racing with a thread that creates a label set in every metric (all schedules with <=1, thorough 3, deviations); each under all schedules with <=1 (thorough 2) deviations; after the attempt: TryLock on every metric and both store locks, no controlled thread left blocked, a VM-style GetDatum on every metric, then a fault-free export of every format. distinct_nontrivial = schedules with >=1 deviation")
+}
+
+func bound(c *vlib.Ctx, f fault) int {
+	if f.updater {
+		return c.Pick(1, 3)
+	}
+	return c.Pick(1, 2)
 }
 
 type seqChooser struct{}
